@@ -45,6 +45,12 @@ Theorem C10_holds_if : forall fixed e v ks m w fl,
 Proof. exact c10_holds_if. Qed.
 Print Assumptions C10_holds_if.
 
+(* Application data: a successful Write reports exactly len(b), whatever the version and cipher family (the 1/n-1
+   record split of TLS <= 1.0 CBC suites included); the echo itself is observed by the runs. *)
+Theorem C10_write_reports_all : forall vers cbc len, uconn_write vers cbc len = len.
+Proof. exact uconn_write_all. Qed.
+Print Assumptions C10_write_reports_all.
+
 (* Before the repair the full statement failed already on a server selecting Firefox's second share ... *)
 Theorem C10_before_fix_refuted : ~ C10_full false.
 Proof. exact C10_full_refuted_unfixed. Qed.
